@@ -92,6 +92,9 @@ def make_supplied(table, idx):
     pairs = pairs[k:] + pairs[:k]
     if idx % 4 == 2:
         pairs.reverse()
+    if idx % 3 == 0:
+        import random
+        random.Random(idx).shuffle(pairs)      # generic permutation (rotations and reversals alone are too regular)
     if idx % 25 == 7:
         pairs[idx % len(pairs)] = list(pairs[(idx + 1) % len(pairs)]) if len(pairs) > 1 else [0, 0]
     return pairs
